@@ -1,0 +1,42 @@
+//go:build verif
+
+package storagesc
+
+// Verification hooks of the staking family (/verif, checks C11 and C23).  Add-only: nothing here is
+// reachable without the build tag `verif`, and no existing line of the package is changed.
+
+import (
+	"bytes"
+
+	cstate "0chain.net/chaincore/chain/state"
+	"0chain.net/smartcontract/stakepool"
+	"0chain.net/smartcontract/stakepool/spenum"
+	"github.com/0chain/common/core/currency"
+)
+
+// VerifStakeDecodePool reports whether the bytes of an MPT value node are a storage-contract stake pool
+// (they decode as one and re-encode to the identical bytes) and returns its content.
+func VerifStakeDecodePool(b []byte) (sp *stakepool.StakePool, totalOffers currency.Coin, ok bool) {
+	p := newStakePool()
+	if _, err := p.UnmarshalMsg(b); err != nil || p.StakePool == nil {
+		return nil, 0, false
+	}
+	enc, err := p.MarshalMsg(nil)
+	if err != nil || !bytes.Equal(enc, b) {
+		return nil, 0, false
+	}
+	return p.StakePool, p.TotalOffers, true
+}
+
+// VerifStakeReward pays `value` to the stake pool of the given blobber / validator exactly as the
+// contract's own reward paths do: load the stake pool, StakePool.DistributeRewards, save it.
+func VerifStakeReward(ptype spenum.Provider, id string, value currency.Coin, balances cstate.StateContextI) error {
+	sp, err := getStakePool(ptype, id, balances)
+	if err != nil {
+		return err
+	}
+	if err := sp.DistributeRewards(value, id, ptype, spenum.FileDownloadReward, balances); err != nil {
+		return err
+	}
+	return sp.Save(ptype, id, balances)
+}
